@@ -31,9 +31,19 @@ Six exhaustively enumerated spaces (nothing is sampled):
      ends with exactly one handler per section; one record logged at the end is
      written once per section.
 
+ (h) the machine of (e) over the rest of the product {which file each handler
+     section names: every set partition of the sections, i.e. also two / three
+     sections with the SAME path, with equal kinds the same section text twice}
+     x {handlers unused, handlers used: a record is logged through handler j every
+     time factory j is called}: reopenFiles() / closeFiles() act on exactly the
+     registered live HANDLERS whatever these have in common, a used delayed
+     handler is reopened like any other, a closed handler that a record has
+     opened again is left alone.
+
 Oracle: vz.ref.logmodel (level table, decision table, Python's own rendering of
 a format, registry model); for (f) the differential relation "same section =>
-same outcome as in a fresh process"; for (g) vz.ref.logfaults.
+same outcome as in a fresh process"; for (g) vz.ref.logfaults; for (h)
+vz.ref.logusage (the registry model, for which the path assignment is no input).
 """
 import collections
 import gc
@@ -942,19 +952,30 @@ class RegSys:
     """The implementation side of (e): n handler factories of one loaded
     configuration, driven by operations, observed after every operation."""
 
-    def __init__(self, env, kinds):
+    def __init__(self, env, kinds, paths=None, used=False):
+        """paths: which file each section names (None: every section its own file;
+        [0, 0]: both the same path); used: a record is logged through handler j
+        every time factory j is called - part (h)."""
         self.env = env
         self.kinds = kinds
         self.n = len(kinds)
+        self.paths = list(range(self.n)) if paths is None else list(paths)
+        self.used = used
+        self.stats = collections.Counter()
         secs = []
         for j, k in enumerate(kinds):
-            opts = dict(SLOT_KINDS[k], path="FILE:e-%d.log" % j)
+            opts = dict(SLOT_KINDS[k], path="FILE:e-%d.log" % self.paths[j])
             secs.append(logfile_text(env, opts, fmt="%(message)s"))
         self.text = "\n".join(secs)
         self.factories = self._load()
         self.wr = [None] * self.n
         self.dead_entries = 0
-        self.model = R.RegistryModel([k.endswith("-delay") for k in kinds])
+        delays = [k.endswith("-delay") for k in kinds]
+        if paths is None and not used:
+            self.model = R.RegistryModel(delays)
+        else:
+            from vz.ref import logusage
+            self.model = logusage.UsageModel(delays, self.paths)
 
     def _load(self):
         st, cfg = load(self.text)
@@ -990,14 +1011,18 @@ class RegSys:
                 self.env.track(h)
             elif self.handler(j) is not h:
                 bad.append(("factory-returned-another-handler", repr(h), "the memoised handler"))
+            if self.used and not bad:
+                self._use(j, h)
             del h
         elif op[0] == "R":
+            self._situation("R")
             try:
                 lh.reopenFiles()
             except Exception as e:
                 return [("reopenFiles-raises", core.exc_desc(e), "no exception")]
             acted = self.model.reopen()
         elif op[0] == "C":
+            self._situation("C")
             try:
                 lh.closeFiles()
             except Exception as e:
@@ -1054,6 +1079,39 @@ class RegSys:
             del h
         return bad
 
+    def _use(self, j, h):
+        """(h) the application logs one record through the handler it has just got."""
+        from vz.ref import logusage
+        verdict = self.model.use(j)
+        old = logging.raiseExceptions
+        logging.raiseExceptions = False
+        try:
+            h.handle(R.make_record())
+        finally:
+            logging.raiseExceptions = old
+        if verdict == logusage.UNSPECIFIED:
+            self.model.adopt(j, h.stream is not None and not h.stream.closed)
+            self.stats["h:record-through-a-handler-closeFiles-has-closed(unspecified, stream state adopted)"] += 1
+        else:
+            self.stats["h:record-through-a-registered-handler"] += 1
+            if self.model.delay[j]:
+                self.stats["h:record-through-a-registered-delayed-handler"] += 1
+
+    def _situation(self, op):
+        """(h) classes of what an R / C operation meets (model side; vacuity guards)."""
+        m = self.model
+        if not hasattr(m, "registered_on_one_file"):
+            return
+        k = m.registered_on_one_file()
+        if k >= 2:
+            self.stats["h:%s-with->=2-registered-handlers-on-one-file" % op] += 1
+        if k >= 3:
+            self.stats["h:%s-with-3-registered-handlers-on-one-file" % op] += 1
+        if m.registered_delayed_open():
+            self.stats["h:%s-with-a-registered-delayed-handler-whose-file-is-open" % op] += 1
+        if m.unregistered_open():
+            self.stats["h:%s-with-a-closed-handler-a-record-has-opened-again(must-be-left-alone)" % op] += 1
+
     def key(self):
         """Canonical implementation state."""
         lh = self.env.lh
@@ -1072,12 +1130,12 @@ class RegSys:
         return tuple(slots), order
 
 
-def run_sequence(env, kinds, ops, acc, count_traces=True):
+def run_sequence(env, kinds, ops, acc, count_traces=True, paths=None, used=False):
     """-> (problems of the first failing step, index) or (None, None)"""
     env.begin()
     try:
         try:
-            s = RegSys(env, kinds)
+            s = RegSys(env, kinds, paths, used)
         except SlotRefused as e:
             return [("slot-configuration-refused", e.args[0], "accepted")], -1, None
         for i, op in enumerate(ops):
@@ -1089,6 +1147,9 @@ def run_sequence(env, kinds, ops, acc, count_traces=True):
         if s.dead_entries:
             # tolerated (they are skipped by reopenFiles/closeFiles), but made visible
             acc.extra["e:dead-registry-entries-seen"] += s.dead_entries
+        if count_traces:
+            for k, v in s.stats.items():
+                acc.extra[k] += v
         key = s.key()
         del s
         return None, None, key
@@ -1096,13 +1157,30 @@ def run_sequence(env, kinds, ops, acc, count_traces=True):
         env.end()
 
 
-def report_e(acc, kinds, ops, i, bad):
+def h_case(kinds, ops, paths, used):
+    case = {"part": "e", "slots": kinds, "ops": ops}
+    if paths is not None or used:
+        case.update(part="h", paths=list(range(len(kinds))) if paths is None else paths, used=used)
+    return case
+
+
+def paths_class(paths):
+    if paths is None or len(set(paths)) == len(paths):
+        return "own-files"
+    return "one-file" if len(set(paths)) == 1 else "some-on-one-file"
+
+
+def report_e(acc, kinds, ops, i, bad, paths=None, used=False):
     what = bad[0][0]
-    acc.violation("registry-" + what, {"part": "e", "slots": kinds, "ops": ops[:i + 1]},
-                  [list(b[:2]) for b in bad], [[b[0], b[2]] for b in bad],
-                  tags={"kind": "registry", "what": what.split("-after-")[0],
-                        "op": ops[i][0] if i >= 0 else "load", "part": "e"},
-                  size=len(ops[:i + 1]) * 100 + len(kinds))
+    case = h_case(kinds, ops[:i + 1], paths, used)
+    tags = {"kind": "registry", "what": what.split("-after-")[0],
+            "op": ops[i][0] if i >= 0 else "load", "part": case["part"]}
+    if case["part"] == "h":
+        tags.update(paths=paths_class(paths), used=used)
+    acc.violation("registry-" + what, case,
+                  [list(b[:2]) for b in bad], [[b[0], b[2]] for b in bad], tags=tags,
+                  size=len(ops[:i + 1]) * 100 + len(kinds) + (0 if paths is None else 10 * len(set(paths)))
+                  + (5 if used else 0))
 
 
 def nontrivial_seq(ops):
@@ -1112,12 +1190,13 @@ def nontrivial_seq(ops):
     return False
 
 
-def shard_e_bfs(kinds, depth, env, acc):
+def shard_e_bfs(kinds, depth, env, acc, paths=None, used=False):
     ops = ops_for(len(kinds))
-    bad, i, k0 = run_sequence(env, kinds, [], acc)
+    P = "e" if paths is None and not used else "h"
+    bad, i, k0 = run_sequence(env, kinds, [], acc, paths=paths, used=used)
     if bad:
-        acc.cls("e:bfs-violation")
-        report_e(acc, kinds, [], i, bad)
+        acc.cls(P + ":bfs-violation")
+        report_e(acc, kinds, [], i, bad, paths, used)
         return
     seen = {k0}
     frontier = collections.deque([[]])
@@ -1125,40 +1204,45 @@ def shard_e_bfs(kinds, depth, env, acc):
         hist = frontier.popleft()
         for op in ops:
             seq = hist + [op]
-            acc.current = {"part": "e", "slots": kinds, "ops": seq}
-            bad, i, key = run_sequence(env, kinds, seq, acc, count_traces=False)
+            acc.current = h_case(kinds, seq, paths, used)
+            bad, i, key = run_sequence(env, kinds, seq, acc, count_traces=False, paths=paths, used=used)
             acc.transitions += 1
             acc.traces += 1
             if bad:
-                acc.cls("e:bfs-violation")
-                report_e(acc, kinds, seq, i, bad)
+                acc.cls(P + ":bfs-violation")
+                report_e(acc, kinds, seq, i, bad, paths, used)
                 continue
-            acc.cls("e:bfs-ok")
+            acc.cls(P + ":bfs-ok")
             if len(seq) < depth and key not in seen:
                 seen.add(key)
                 frontier.append(seq)
             elif key not in seen:
                 seen.add(key)
     acc.states += len(seen)
-    acc.extra["e:bfs-configs"] += 1
-    acc.sample(lambda: {"part": "e", "slots": kinds, "bfs_states": len(seen), "depth": depth})
+    acc.extra[P + ":bfs-configs"] += 1
+    if P == "h":
+        acc.extra["h:bfs-states"] += len(seen)
+    acc.sample(lambda: dict(h_case(kinds, [], paths, used), bfs_states=len(seen), depth=depth))
 
 
-def shard_e_seq(kinds, prefix, depth, env, acc):
+def shard_e_seq(kinds, prefix, depth, env, acc, paths=None, used=False):
     ops = ops_for(len(kinds))
+    P = "e" if paths is None and not used else "h"
     for tail in itertools.product(ops, repeat=depth - len(prefix)):
         seq = list(prefix) + list(tail)
-        acc.current = {"part": "e", "slots": kinds, "ops": seq}
-        bad, i, _ = run_sequence(env, kinds, seq, acc)
+        acc.current = h_case(kinds, seq, paths, used)
+        bad, i, _ = run_sequence(env, kinds, seq, acc, paths=paths, used=used)
         acc.ev()
-        acc.extra["e:sequences"] += 1
+        acc.extra[P + ":sequences"] += 1
+        if P == "h":
+            acc.extra["h:sequences:%s:%s" % (paths_class(paths), "used" if used else "unused")] += 1
         if nontrivial_seq(seq):
             acc.nt()
         if bad:
-            acc.cls("e:seq-violation")
-            report_e(acc, kinds, seq, i, bad)
+            acc.cls(P + ":seq-violation")
+            report_e(acc, kinds, seq, i, bad, paths, used)
         else:
-            acc.cls("e:seq-ok")
+            acc.cls(P + ":seq-ok")
 
 
 TRIPLES = [["plain", "rot", "timed"], ["plain-delay", "rot-delay", "timed-delay"],
@@ -1182,6 +1266,73 @@ def e_bfs_configs(tier):
         return out + [(t, 4) for t in TRIPLES]
     return ([([a], 6) for a in K] + [([a, b], 6) for a in K for b in K]
             + [([a, b, c], 6) for a in K for b in K for c in K])
+
+
+# ----------------------------------------------------------------------------
+# (h) the machine of (e) with two more axes of the CONFIGURATION:
+#
+#  * WHICH FILE each handler section names: every assignment of the n sections to
+#    files up to renaming (set partitions: [0, 1] two files, [0, 0] both sections the
+#    same path - with equal kinds the same section text twice).  The statement speaks
+#    of "exactly the file HANDLERS still alive": what two handlers have in common
+#    (file name, file, class, every option) must not make reopenFiles() /
+#    closeFiles() / the factories treat them as one.
+#  * whether the handlers are USED: a record is logged through handler j every time
+#    the application gets it from factory j.  A delayed handler then has an open file,
+#    so that what R / C do to it can be seen at all, and a handler that closeFiles()
+#    has closed gets its file opened again by the standard library: alive, not
+#    registered, open - R / C must leave it alone.
+#
+# (e) is the point (every section its own file, unused); (h) enumerates the rest of
+# the product.  Oracle: vz.ref.logusage.UsageModel = the registry model of (e), for
+# which the path assignment is not an input at all.
+
+H_DEPTH4_KINDS = ["plain", "plain-delay", "rot"]
+
+
+def h_variants(n):
+    """(paths, used) for n sections, without the point that is part (e)."""
+    from vz.ref import logusage
+    own = list(range(n))
+    return [(p, u) for p in logusage.partitions(n) for u in (False, True) if not (p == own and not u)]
+
+
+def h_configs(tier):
+    """-> list of (kinds, paths, used, depth) for the all-sequences sweep"""
+    K = KIND_NAMES
+    out = []
+    if tier == "quick":
+        out += [([a], p, u, 4) for a in K for p, u in h_variants(1)]
+        out += [([a, b], p, u, 4 if a in H_DEPTH4_KINDS and b in H_DEPTH4_KINDS else 3)
+                for a in K for b in K for p, u in h_variants(2)]
+        out += [(t, p, u, 3) for t in TRIPLES[:2] for p, u in h_variants(3)]
+        return out
+    out += [([a], p, u, 6) for a in K for p, u in h_variants(1)]
+    out += [([a, b], p, u, 5) for a in K for b in K for p, u in h_variants(2)]
+    # 3 registered handlers on ONE file before an R / C need F F F R: length 5 there
+    out += [(t, p, u, 5 if p == [0, 0, 0] else 4) for t in TRIPLES for p, u in h_variants(3)]
+    return out
+
+
+def h_bfs_configs(tier):
+    K = KIND_NAMES
+    d = 4 if tier == "quick" else 6
+    out = [([a], p, u, d) for a in K for p, u in h_variants(1)]
+    out += [([a, b], p, u, d) for a in K for b in K for p, u in h_variants(2)]
+    out += [(t, p, u, 4 if tier == "quick" else 5) for t in TRIPLES for p, u in h_variants(3)]
+    return out
+
+
+def h_shards(tier):
+    out = []
+    for kinds, paths, used, depth in h_bfs_configs(tier):
+        out.append(("h-bfs", kinds, paths, used, depth))
+    for kinds, paths, used, depth in h_configs(tier):
+        ops = ops_for(len(kinds))
+        plen = 0 if len(ops) ** depth < 2000 else (1 if len(ops) ** depth < 20000 else 2)
+        for prefix in itertools.product(ops, repeat=plen):
+            out.append(("h-seq", kinds, paths, used, list(prefix), depth))
+    return out
 
 
 # ----------------------------------------------------------------------------
@@ -2278,6 +2429,10 @@ def shard_func(shard, acc):
             shard_e_seq(shard[1], shard[2], shard[3], env, acc)
         elif what == "g":
             shard_g(shard[1], shard[2], shard[3], shard[4], env, acc)
+        elif what == "h-bfs":
+            shard_e_bfs(shard[1], shard[4], env, acc, paths=shard[2], used=shard[3])
+        elif what == "h-seq":
+            shard_e_seq(shard[1], shard[4], shard[5], env, acc, paths=shard[2], used=shard[3])
         else:
             raise core.HarnessError("unknown shard %r" % (shard,))
     return acc
@@ -2298,6 +2453,7 @@ def all_shards(tier):
         for prefix in itertools.product(ops, repeat=plen):
             shards.append(("e-seq", kinds, list(prefix), depth))
     shards += g_shards(tier)
+    shards += h_shards(tier)
     return shards
 
 
@@ -2340,8 +2496,18 @@ def run(tier):
              "factory has returned - also when earlier calls failed part-way), registry / liveness / streams "
              "as in (e); at the end of a sequence without C one record is logged through the configured "
              "logger: exactly one line per section's file / STDOUT section (%s).  "
+             "(h) SHARED FILES and USED HANDLERS: the machine of (e) (same operations, BFS over the canonical "
+             "state + every sequence of the bound length, model in lock step, same observations after every "
+             "step: registry == registered live handlers, liveness, stream state, R/C close the old stream of "
+             "exactly the registered handlers, R gives each a new one, every other handler's stream untouched) "
+             "over the rest of the configuration product {file assignment: every set partition of the 1-3 "
+             "sections onto files, so also 2 / 3 sections naming the SAME path - with equal kinds the same "
+             "section text twice} x {unused, used: one record is logged through handler j every time factory j "
+             "is called, so a delayed handler has an open file and a handler closed by closeFiles gets its file "
+             "opened again (alive, unregistered, open: R/C must leave it alone)} minus the point (own files, "
+             "unused) which is (e) (%s).  "
              "Non-trivial = (b)/(c) accepted configuration with >= 1 handler, (d) format "
-             "with >= 1 field reference in its style, (e) sequence with a factory call followed by a "
+             "with >= 1 field reference in its style, (e)/(h) sequence with a factory call followed by a "
              "registry operation, (f) history in which a section is accepted, (fl) both sections accepted, "
              "(g) sequence in which the logger factory is called again after a call that a fault made fail "
              "(distinct cases; shards partition each space)."
@@ -2358,7 +2524,14 @@ def run(tier):
                 "STDOUT) under <eventlog> length 4 and under <logger> length 5; 3 sections: 216 triples of the "
                 "plain sub-alphabet length 3, 27 triples of {plain, plain+nodir, plain+badenc} under both "
                 "logger kinds length 4 (cut to keep the tier under ~8 000 CPU-s: no length 6, no full "
-                "alphabet on 3 sections)"),
+                "alphabet on 3 sections)",
+                "quick: 1 section x 6 kinds used, length 4; 2 sections: all 36 ordered kind pairs x {one file unused, "
+                "one file used, own files used}, length 4 on the 9 pairs of {plain, plain-delay, rot}, length 3 on "
+                "the other 27; 3 sections: 2 kind triples x 5 partitions x {unused, used} (minus (e)), length 3; "
+                "BFS depth 4 over all of these and over all 4 triples" if quick else
+                "thorough: 1 section used length 6; 2 sections: all 36 ordered kind pairs x the 3 variants, length 5; "
+                "3 sections: 4 kind triples x 5 partitions x {unused, used} (minus (e)), length 4 (5 when all three name one file); BFS depth 6 "
+                "(triples 5)"),
         bounds={"levels": {"names": [n for n, _ in R.LEVEL_TABLE], "integers": [-2, 52]},
                 "logfile_product": {"path": B_PATHS, "max-size": B_MAX, "old-files": B_OLD, "when": B_WHEN,
                                     "interval": B_INT, "delay": B_DELAY, "encoding": B_ENC, "level": B_LEVEL},
@@ -2372,6 +2545,14 @@ def run(tier):
                 "e_slot_kinds": KIND_NAMES,
                 "e_sequences": [[k, d] for k, d in e_configs(tier)],
                 "e_bfs_depth": 4 if quick else 6,
+                "h_file_assignments": {str(n): [p for p in __import__("vz.ref.logusage", fromlist=["x"]).partitions(n)]
+                                       for n in (1, 2, 3)},
+                "h_used": [False, True],
+                "h_depth4_kinds_quick": H_DEPTH4_KINDS,
+                "h_configurations": collections.Counter(
+                    "%d sections/%s/%s/length %d" % (len(k), paths_class(p), "used" if u else "unused", d)
+                    for k, p, u, d in h_configs(tier)),
+                "h_bfs_configurations": len(h_bfs_configs(tier)),
                 "f_formats": h_formats(full=not quick), "f_styles": list(R.STYLES), "f_formatters": list(H_FORMATTERS),
                 "f_dateformats": [None, H_DATEFORMAT],
                 "f_sections": len(h_atoms("quick" if quick else "thorough")),
@@ -2413,6 +2594,14 @@ def run(tier):
             "the ones the retry attaches; handler factories are reached as logger_factory.handler_factories[j]; "
             "faults are environment states of /dev/shm (missing directory, directory in place of the file) or "
             "an unknown codec name; delayed handlers and STDOUT carry no fault (nothing is opened at creation)",
+            "(h): reference vz/ref/logusage.py; 'acts on exactly the file handlers still alive' is read as a "
+            "statement about HANDLERS: two sections are two handlers whatever they share (path, class, every "
+            "option).  Observed per handler: stream object identity / closedness and the registry - NOT which "
+            "of several files a record ends up in when a rotating handler renames a file other handlers have "
+            "open (standard-library rollover semantics, outside the statement), and not the number of backup "
+            "files.  A record logged through a registered handler leaves its stream open (logging.FileHandler: "
+            "delay defers opening until the first emit); what a record does to a handler closeFiles() has closed "
+            "is unspecified (the observed stream state is adopted by the model; counted)",
         ])
     # (f)/(fl) first and in a pool of their own: these workers never load a
     # configuration themselves (every history runs in a forked child of theirs),
@@ -2471,6 +2660,26 @@ def run(tier):
         for f_ in G_FAULTS[1:]:
             run.require(any(c.startswith("g:call-raised:%s:%s:" % (op_, f_)) and v > 0 for c, v in x.items()),
                         "(g) fault %s never made a %s call raise" % (f_, op_))
+    nh = sum(len(ops_for(len(kk))) ** d for kk, _, _, d in h_configs(tier))
+    run.require(x.get("h:sequences", 0) == nh, "(h) %d sequences executed, %d enumerated" % (x.get("h:sequences", 0), nh))
+    run.require(k.get("h:seq-ok", 0) + k.get("h:seq-violation", 0) == nh and k.get("h:bfs-ok", 0) > 1000,
+                "(h) outcome classes do not add up")
+    run.require(x.get("h:bfs-configs", 0) == len(h_bfs_configs(tier)), "(h) BFS configurations missing")
+    for c, least in (("h:sequences:one-file:unused", 5000), ("h:sequences:one-file:used", 5000),
+                     ("h:sequences:own-files:used", 5000), ("h:sequences:some-on-one-file:unused", 1000),
+                     ("h:sequences:some-on-one-file:used", 1000),
+                     ("h:R-with->=2-registered-handlers-on-one-file", 500),
+                     ("h:C-with->=2-registered-handlers-on-one-file", 500),
+                     ("h:R-with-a-registered-delayed-handler-whose-file-is-open", 1000),
+                     ("h:C-with-a-registered-delayed-handler-whose-file-is-open", 1000),
+                     ("h:R-with-a-closed-handler-a-record-has-opened-again(must-be-left-alone)", 20),
+                     ("h:C-with-a-closed-handler-a-record-has-opened-again(must-be-left-alone)", 20),
+                     ("h:record-through-a-registered-delayed-handler", 5000),
+                     ("h:record-through-a-handler-closeFiles-has-closed(unspecified, stream state adopted)", 200)):
+        run.require(x.get(c, 0) >= least, "(h) class %s: %d < %d" % (c, x.get(c, 0), least))
+    if not quick:
+        run.require(x.get("h:R-with-3-registered-handlers-on-one-file", 0) >= 100,
+                    "(h) reopenFiles never met 3 registered handlers on one file")
     for c in ("fl:same-logger", "fl:other-logger", "fl:same-logger-level-changes",
               "fl:same-logger-level-back-to-notset", "fl:same-logger-propagate-changes"):
         run.require(k.get(c, 0) >= 10, "(fl) history class %s rarely seen" % c)
@@ -2508,12 +2717,14 @@ def replay(body):
                     check_f_siblings(configs[-1][-1], None, case["placement"], env, acc, configs=configs)
             elif part == "fl":
                 check_fl(case["p"], case["q"], env, acc)
-            elif part == "e":
+            elif part in ("e", "h"):
                 kinds = case["slots"]
                 ops = [list(o) for o in case["ops"]]
-                bad, i, _ = run_sequence(env, kinds, ops, acc)
+                paths, used = case.get("paths"), bool(case.get("used"))
+                bad, i, _ = run_sequence(env, kinds, ops, acc, paths=paths, used=used)
+                acc.sample({"part": part, "case": case, "problems": bad})
                 if bad:
-                    report_e(acc, kinds, ops, i, bad)
+                    report_e(acc, kinds, ops, i, bad, paths, used)
             elif part == "g":
                 slots = [list(x) for x in case["slots"]]
                 ops = [list(o) for o in case["ops"]]
